@@ -45,6 +45,7 @@ def use_line(use, prog):
         'file-matcher-run': 'exists -rel-home some.txt : run %s' % prog,
         'exit-code-from': 'exit-code -from %s\n == 0' % prog,
         'stdout-from': 'stdout -from %s\n ! is-empty' % prog,
+        'env-from-stdout': 'env VERIF_P = -stdout-from %s' % prog,
     }[use]
 
 
